@@ -1,5 +1,6 @@
 import Driver.Map
 import Driver.Sub
+import Driver.Types
 import MdspanVerif.Model.ValidB
 open Mdspan Drv
 
@@ -7,6 +8,7 @@ def step (line : String) : String :=
   match line.trimAscii.toString.splitOn " " with
   | "map" :: kind :: ty :: rest => mapLine kind ty rest
   | "sub" :: kind :: ty :: rest => subLine kind ty rest
+  | "subtype" :: lay :: _ :: rest => subtypeLine lay rest
   | "dot" :: rest =>
     let ss := (parseList ((getKey rest "str").getD "-")).map Int.toNat
     let is := (parseList ((getKey rest "idx").getD "-")).map Int.toNat
